@@ -3,7 +3,7 @@
    Only statements closed by [exact]; the lemmas live in Proofs/CopyFault.v (on top of
    Proofs/CopySpec.v).  The transition system is Model/CopyFault.v: the visible-event
    acceptor of copy.go (Model/CopySpec.v) extended with fault events -- an error returned
-   by dst.Exists [ExX], src.Fetch [SFX], dst.Push/PushReference before or after the content
+   by dst.Exists [ExX], src.Fetch [SFX], Read() of a fetched manifest stream [SRX], the FindSuccessors callback [FSX], dst.Push/PushReference before or after the content
    was stored [PuX n ref stored], dst.Tag before or after the reference was set [TagX n set],
    registry.Mounter.Mount before / after the blob was mounted or uploaded [MtX n stored],
    a user callback [Ev (CbFail k n)], an operation of the
@@ -17,8 +17,8 @@
    placement of any number of faults and every cancellation point.
    The protocol part of C02 (no deadlock, termination, syncutil.Go / LimitedRegion) is
    Properties/C02_protocol.v. *)
-From Oras Require Import Base.Prelude Generated.GC02 Model.CopySpec Model.CopyTop Model.CopyFault
-  Proofs.CopySpec Proofs.CopyFault Proofs.CopyFnFacts.
+From Oras Require Import Base.Prelude Generated.GC02 Model.CopySpec Model.CopyTop Model.CopyOpt Model.CopyFault
+  Model.CopyAbs Proofs.CopyAbs Model.CopyFaultOpt Proofs.CopySpec Proofs.CopyFault Proofs.CopyFnFacts Proofs.CopyFaultOpt Proofs.CopyFaultLive Proofs.CopyFaultTerm.
 Local Open Scope nat_scope.
 
 (* The tie of the hand-modelled error handling to the source (layer T -> P): the syntactic facts
@@ -33,6 +33,21 @@ Theorem C02_source_facts : c02_source_facts = true.
 Proof. exact source_facts_hold. Qed.
 Print Assumptions C02_source_facts.
 
+(* ... and the source ORDER of the calls inside copyGraph.fn / ExtendedCopyGraph / copyNode / doCopyNode
+   (translator kind callseq) is the order of the program counters / phases of the two models. *)
+Theorem C02_source_call_order :
+  c02_calls_copygraph =
+    [b "tracker.TryCommit"; b "close"; b "dst.Exists"; b "opts.OnCopySkipped"; b "opts.FindSuccessors";
+     b "removeForeignLayers"; b "region.End"; b "syncutil.Go"; b "tracker.TryCommit"; b "region.Start";
+     b "proxy.Cache.Exists"; b "copyNode"; b "mountOrCopyNode"; b "syncutil.Go"]%string /\
+  c02_calls_extendedcopygraph =
+    [b "findRoots"; b "semaphore.NewWeighted"; b "cas.NewProxyWithLimit"; b "status.NewTracker"; b "syncutil.Go";
+     b "region.End"; b "copyGraph"; b "region.Start"]%string /\
+  c02_calls_copynode = [b "opts.PreCopy"; b "doCopyNode"; b "opts.PostCopy"]%string /\
+  c02_calls_docopynode = [b "src.Fetch"; b "newCopyError"; b "rc.Close"; b "dst.Push"; b "newCopyError"]%string.
+Proof. exact source_call_order_holds. Qed.
+Print Assumptions C02_source_call_order.
+
 (* A destination that started link-closed is link-closed after every accepted trace --
    successful, failed, cancelled, or still running. *)
 Theorem C02_closed_always :
@@ -41,6 +56,17 @@ Theorem C02_closed_always :
     faccepts g c ext d0 tr = Some fs -> closed_nodes g (dst (fb fs)).
 Proof. exact fclosed_always. Qed.
 Print Assumptions C02_closed_always.
+
+(* The same at the level of keys -- what a digest-keyed destination answers to Exists: every node whose
+   key the destination holds (also a "twin" of a stored node) has all its successors held.  This is where
+   [mt_consistent] is needed; without it C01's F12 witness applies. *)
+Theorem C02_closed_always_keys :
+  forall (g : graph) (c : cfg) (ext : bool) (d0 : list node) (tr : list fevent) (fs : fstate),
+    ext_ok g c ext d0 -> closed_nodes g d0 -> mt_consistent g ->
+    faccepts g c ext d0 tr = Some fs ->
+    forall n x, has g (dst (fb fs)) n = true -> In x (succ' g n) -> has g (dst (fb fs)) x = true.
+Proof. exact fclosed_keys. Qed.
+Print Assumptions C02_closed_always_keys.
 
 (* ... hence at every instant: every prefix of an accepted trace is accepted and leaves the
    destination link-closed. *)
@@ -115,6 +141,99 @@ Theorem C02_nofault_no_error_return :
 Proof. exact fnofault_no_error. Qed.
 Print Assumptions C02_nofault_no_error_return.
 
+(* No stuck state.  The transition system excludes no behaviour by deadlocking: at every state reached by an
+   accepted trace that has not returned -- whatever faults and cancellations happened -- some FAULT-FREE event
+   is enabled (an untainted run can always go on towards the successful return; a tainted one can at least
+   return its error).  Hypotheses: the graph is well-founded (rank) and closed under successors inside its
+   universe, K >= 1, the roots are nodes of the universe, the destination is not a registry.Mounter, and
+   (ExtendedCopyGraph) the virtual super-root is nobody's successor.  With C02_nofault_no_error_return: a run
+   that meets no fault can be extended step by step, never to an error return.  (That real executions take
+   finitely many steps is the protocol part's C02_terminates; the acceptor itself allows unboundedly many
+   Mount candidates, hence c_mount = false here.) *)
+Theorem C02_no_stuck_state :
+  forall (g : graph) (c : cfg) (ext : bool) (d0 : list node) (rank : node -> nat),
+    (forall n x, In x (succ' g n) -> rank x < rank n) ->
+    1 <= c_K c -> c_root c < g_n g -> (forall x, In x (c_xroots c) -> x < g_n g) ->
+    (forall n x, n < g_n g -> In x (succ' g n) -> x < g_n g) ->
+    c_mount c = false ->
+    (ext = true -> forall n, ~ In (c_root c) (succ' g n)) ->
+    forall (tr : list fevent) (fs : fstate),
+    ext_ok g c ext d0 -> faccepts g c ext d0 tr = Some fs -> returned (fb fs) = None ->
+    exists e fs', is_fault (Ev e) = false /\ fstep g c ext fs (Ev e) = Some fs'.
+Proof. exact fprogress. Qed.
+Print Assumptions C02_no_stuck_state.
+
+(* The same for registry.Mounter destinations (MountFrom -> Mount per candidate -> mounted | skipped | fallback
+   upload), when content keys are injective (no two nodes with one digest): every phase of the mount path has a
+   next event too.  (No bound on the run length here: the acceptor allows any number of Mount candidates.) *)
+Theorem C02_no_stuck_state_mounter :
+  forall (g : graph) (c : cfg) (ext : bool) (d0 : list node) (rank : node -> nat),
+    (forall n x, In x (succ' g n) -> rank x < rank n) ->
+    1 <= c_K c -> c_root c < g_n g -> (forall x, In x (c_xroots c) -> x < g_n g) ->
+    (forall n x, n < g_n g -> In x (succ' g n) -> x < g_n g) ->
+    (ext = true -> forall n, ~ In (c_root c) (succ' g n)) ->
+    (forall a b, g_dkey g a = g_dkey g b -> a = b) ->
+    forall (tr : list fevent) (fs : fstate),
+    ext_ok g c ext d0 -> faccepts g c ext d0 tr = Some fs -> returned (fb fs) = None ->
+    exists e fs', is_fault (Ev e) = false /\ fstep g c ext fs (Ev e) = Some fs'.
+Proof. exact fprogress_m. Qed.
+Print Assumptions C02_no_stuck_state_mounter.
+
+(* Fault-free runs end well (the spec-level form of "re-running it without faults completes the graph"):
+   a fault-free accepted trace has a bounded number of operation / callback / return events (potential
+   function: every such event moves one node strictly forward through its phases), and from every state a
+   fault-free accepted trace reaches without having returned, a finite fault-free continuation reaches the
+   SUCCESSFUL return -- which by C02_success_complete means the whole graph of the call's roots is there. *)
+Theorem C02_nofault_run_bounded :
+  forall (g : graph) (c : cfg) (ext : bool) (d0 : list node) (tr : list fevent) (fs : fstate),
+    ext_ok g c ext d0 -> c_mount c = false ->
+    faccepts g c ext d0 tr = Some fs -> existsb is_fault tr = false ->
+    count_ev tr <= 15 * g_n g + 1.
+Proof. exact fnofault_bounded. Qed.
+Print Assumptions C02_nofault_run_bounded.
+
+Theorem C02_nofault_completes :
+  forall (g : graph) (c : cfg) (ext : bool) (d0 : list node) (rank : node -> nat),
+    (forall n x, In x (succ' g n) -> rank x < rank n) ->
+    1 <= c_K c -> c_root c < g_n g -> (forall x, In x (c_xroots c) -> x < g_n g) ->
+    (forall n x, n < g_n g -> In x (succ' g n) -> x < g_n g) ->
+    c_mount c = false ->
+    (ext = true -> forall n, ~ In (c_root c) (succ' g n)) ->
+    forall (tr : list fevent) (fs : fstate),
+    ext_ok g c ext d0 -> faccepts g c ext d0 tr = Some fs -> existsb is_fault tr = false ->
+    returned (fb fs) = None ->
+    exists tr2 fs2, existsb is_fault tr2 = false /\
+      faccepts g c ext d0 (tr ++ tr2) = Some fs2 /\ returned (fb fs2) = Some true.
+Proof. exact fnofault_completes. Qed.
+Print Assumptions C02_nofault_completes.
+
+(* The retry clause in one statement: whatever ANY run of a first call left, a fault-free second call (no
+   Mounter) that has not returned yet can be continued, fault-free and finitely, to the successful return, and
+   then everything reachable from its roots is in the destination. *)
+Theorem C02_rerun_completes :
+  forall (g : graph) (c1 c2 : cfg) (ext1 ext2 : bool) (d0 : list node) (rank : node -> nat)
+         (tr1 : list fevent) (fs1 : fstate) (tr2 : list fevent) (fs2 : fstate),
+    (forall n x, In x (succ' g n) -> rank x < rank n) ->
+    1 <= c_K c2 -> c_root c2 < g_n g -> (forall x, In x (c_xroots c2) -> x < g_n g) ->
+    (forall n x, n < g_n g -> In x (succ' g n) -> x < g_n g) ->
+    c_mount c2 = false -> (ext2 = true -> forall n, ~ In (c_root c2) (succ' g n)) ->
+    ext_ok g c1 ext1 d0 -> closed_nodes g d0 -> mt_consistent g ->
+    faccepts g c1 ext1 d0 tr1 = Some fs1 ->
+    ext_ok g c2 ext2 (dst (fb fs1)) ->
+    faccepts g c2 ext2 (dst (fb fs1)) tr2 = Some fs2 -> existsb is_fault tr2 = false -> returned (fb fs2) = None ->
+    exists tr3 fs3, existsb is_fault tr3 = false /\
+      faccepts g c2 ext2 (dst (fb fs1)) (tr2 ++ tr3) = Some fs3 /\ returned (fb fs3) = Some true /\
+      forall r n, is_call_root g c2 ext2 r -> reach g r n -> has g (dst (fb fs3)) n = true.
+Proof. exact frerun_completes. Qed.
+Print Assumptions C02_rerun_completes.
+
+Example C02_example_progress_hypotheses :
+  (forall n x, In x (succ' g_sh n) -> x < n) /\ 1 <= c_K c_sh /\ c_root c_sh < g_n g_sh /\
+  (forall n x, n < g_n g_sh -> In x (succ' g_sh n) -> x < g_n g_sh) /\ c_mount c_sh = false /\
+  (forall n x, In x (succ' g_x n) -> x < n) /\ (forall n, ~ In (c_root c_x) (succ' g_x n)) /\
+  (forall n x, n < g_n g_x -> In x (succ' g_x n) -> x < g_n g_x).
+Proof. exact example_progress_hyps. Qed.
+
 (* Success of the extended system (also ExtendedCopyGraph's fan-out over several roots):
    everything reachable from every root of the call is in the destination. *)
 Theorem C02_success_complete :
@@ -165,6 +284,73 @@ Theorem C02_conservative_over_CopySpec :
 Proof. exact faccepts_conservative. Qed.
 Print Assumptions C02_conservative_over_CopySpec.
 
+(* Refinement to the abstract specification (Model/CopyAbs.v: a node is stored only when its successors are
+   held; success only when everything reachable from the roots is held; an error return any time).  The
+   abstract system keeps a link-closed destination link-closed by construction, and every step of the
+   visible-event system from a state reached by an accepted trace is a step of the abstract system under the
+   abstraction (destination content, return value): a store with its guard, a return with its guard, or a
+   stutter.  The protocol system refines the same abstract system (C02_protocol_refines_abstract). *)
+Theorem C02_abstract_keeps_closed :
+  forall (succ : nat -> list nat) (is_root : nat -> Prop) (held : list nat -> nat -> Prop),
+    (forall d x m, held d m -> held (x :: d) m) ->
+    forall s l s', astep succ is_root held s l s' -> aclosed succ held (a_dst s) -> aclosed succ held (a_dst s').
+Proof. exact astep_closed. Qed.
+Print Assumptions C02_abstract_keeps_closed.
+
+Theorem C02_spec_refines_abstract :
+  forall (g : graph) (c : cfg) (ext : bool) (d0 : list node) (tr : list fevent) (fs : fstate) (fe : fevent) (fs' : fstate),
+    ext_ok g c ext d0 -> closed_nodes g d0 -> mt_consistent g ->
+    faccepts g c ext d0 tr = Some fs -> fstep g c ext fs fe = Some fs' ->
+    exists l, astep (succ' g) (froot g c ext) (fheld g) (fabs fs) l (fabs fs').
+Proof. exact frefines. Qed.
+Print Assumptions C02_spec_refines_abstract.
+
+(* Nil callbacks.  A trace recorded with any subset [cs] of the callbacks set (a nil callback leaves no
+   event) is accepted by [faccepts_opt] exactly through its ELABORATION [full]: a run of the system above
+   in which the invocations of the nil callbacks are inserted; erasing them gives the recorded trace back
+   and no fault is added or lost.  Hence the statements of C02 hold for such runs as well. *)
+Theorem C02_opt_elaborates :
+  forall (cs : cbset) (g : graph) (c : cfg) (ext : bool) (d0 : list node) (tr : list fevent) (fs : fstate) (full : list fevent),
+    faccepts_opt cs g c ext d0 tr = Some (fs, full) ->
+    faccepts g c ext d0 full = Some fs /\ ferase cs full = tr /\ existsb is_fault full = existsb is_fault tr.
+Proof. exact fopt_elaborates. Qed.
+Print Assumptions C02_opt_elaborates.
+
+Theorem C02_opt_closed_always :
+  forall (cs : cbset) (g : graph) (c : cfg) (ext : bool) (d0 : list node) (tr : list fevent) (fs : fstate) (full : list fevent),
+    ext_ok g c ext d0 -> closed_nodes g d0 -> faccepts_opt cs g c ext d0 tr = Some (fs, full) ->
+    closed_nodes g (dst (fb fs)).
+Proof. exact fopt_closed_always. Qed.
+Print Assumptions C02_opt_closed_always.
+
+Theorem C02_opt_fault_surfaces :
+  forall (cs : cbset) (g : graph) (c : cfg) (ext : bool) (d0 : list node) (tr : list fevent) (fs : fstate) (full : list fevent),
+    ext_ok g c ext d0 -> faccepts_opt cs g c ext d0 tr = Some (fs, full) -> existsb is_fault tr = true ->
+    returned (fb fs) <> Some true.
+Proof. exact fopt_fault_surfaces. Qed.
+Print Assumptions C02_opt_fault_surfaces.
+
+Theorem C02_opt_nofault_no_error_return :
+  forall (cs : cbset) (g : graph) (c : cfg) (ext : bool) (d0 : list node) (tr : list fevent) (fs : fstate) (full : list fevent),
+    faccepts_opt cs g c ext d0 tr = Some (fs, full) -> existsb is_fault tr = false ->
+    tainted g fs = false /\ returned (fb fs) <> Some false.
+Proof. exact fopt_nofault_no_error. Qed.
+Print Assumptions C02_opt_nofault_no_error_return.
+
+Theorem C02_opt_success_complete :
+  forall (cs : cbset) (g : graph) (c : cfg) (ext : bool) (d0 : list node) (tr : list fevent) (fs : fstate) (full : list fevent),
+    ext_ok g c ext d0 -> closed_nodes g d0 -> mt_consistent g ->
+    faccepts_opt cs g c ext d0 tr = Some (fs, full) -> returned (fb fs) = Some true ->
+    forall r n, is_call_root g c ext r -> reach g r n -> has g (dst (fb fs)) n = true.
+Proof. exact fopt_success_complete. Qed.
+Print Assumptions C02_opt_success_complete.
+
+Example C02_example_nil_callbacks :
+  exists fs full, faccepts_opt cs_pre_only g_sh c_sh false [] tr_sh_opt = Some (fs, full) /\
+    returned (fb fs) = Some false /\ ph (fb fs) 1 = Done /\ In (Ev (Cb CPost 1)) full /\
+    length full = S (length tr_sh_opt).
+Proof. exact example_opt_run. Qed.
+
 (* The hypotheses are satisfiable and the runs are not vacuous: a shared-successor DAG
    (R -> A, B; A -> C, D; B -> C) whose push of C fails AFTER the content was stored while D
    is in flight; the call returns an error with {C, D} in the (closed) destination; the rerun
@@ -199,3 +385,13 @@ Example C02_example_rejects_ok_after_cancel :
   (exists fs, faccepts g_sh c_sh false [] [Cancel; Ev (Ret false)] = Some fs) /\
   faccepts g_x c_x true [0; 1; 2] [ProOk; Cancel; ProOk; ProOk; Ev (Ret true)] = None.
 Proof. exact example_rejects_ok_after_cancel. Qed.
+
+(* the extra hypothesis of C02_no_stuck_state_mounter is satisfiable: a Mounter destination (c_mount = true) on
+   the shared-successor DAG, whose content keys are the node ids *)
+Example C02_example_mounter_hypotheses :
+  (forall a b, g_dkey g_sh a = g_dkey g_sh b -> a = b) /\
+  exists fs, faccepts g_sh (mkCfg 3 MGraph 4 true true [] []) false []
+               [Ev (ExB 4); Ev (ExE 4 false); Ev (SFB 4); Ev (SFE 4); Ev (SFC 4); Ev (ExB 2); Ev (ExE 2 false);
+                Ev (SFB 2); Ev (SFE 2); Ev (SFC 2); Ev (ExB 0); Ev (ExE 0 false); Ev (Cb CMountFrom 0); Ev (MtB 0);
+                MtX 0 true] = Some fs /\ ph (fb fs) 0 = Dead /\ present_nodes g_sh (dst (fb fs)) = [0].
+Proof. split; [intros a b H; exact H|]. eexists. split; [vm_compute; reflexivity|]. split; reflexivity. Qed.
